@@ -52,6 +52,9 @@ def rules_table():
         rules = list(mod.RULES)
         for spec in getattr(mod, "DEFERRED_BUNDLES", []):
             rules += share.bundle(spec["prop"], spec["tag"], spec["module"], only=spec.get("only"), skip=spec.get("skip", ()), why=spec.get("why", ""))
+        from rules import order
+        if "C%02d" % i in order.PREFIXES:
+            rules.append(("C%02d.ORDER" % i, order.DOC, None))
         for rid, doc, fn in rules:
             n += 1
             d = " ".join(doc.split())
